@@ -25,6 +25,7 @@ type Write struct {
 	Path  []string
 	Place *Term
 	Val   func() *Term
+	ValIn func(*Ctx) *Term // context-sensitive value (library-model writes)
 	Instr ssa.Instruction
 	Fn    *ssa.Function
 	Weak  bool   // may-write: cannot kill other writes
@@ -142,9 +143,11 @@ func (e *Engine) buildWrites() {
 		in    ssa.Instruction
 		addr  ssa.Value
 		val   func() *Term
+		valIn func(*Ctx) *Term
 		kind  string
 		havoc bool
 	}
+	var curValIn func(*Ctx) *Term
 	add := func(fn *ssa.Function, place *Term, val func() *Term, in ssa.Instruction, kind string) {
 		base, path := splitPlace(place)
 		bases := []*Term{base}
@@ -155,13 +158,12 @@ func (e *Engine) buildWrites() {
 		}
 		for _, b := range bases {
 			bb, pp := splitPlace(b)
-			e.allWrites = append(e.allWrites, &Write{Base: bb.String(), BaseT: bb, Path: append(append([]string{}, pp...), path...), Place: place, Val: val, Instr: in, Fn: fn, Weak: weak, Kind: kind})
+			e.allWrites = append(e.allWrites, &Write{Base: bb.String(), BaseT: bb, Path: append(append([]string{}, pp...), path...), Place: place, Val: val, ValIn: curValIn, Instr: in, Fn: fn, Weak: weak, Kind: kind})
 		}
 	}
 	var all []pending
 	for _, fn := range e.P.Funcs {
 		fn := fn
-		unk := e.UnknownCtx(fn)
 		for _, b := range fn.Blocks {
 			for _, in := range b.Instrs {
 				switch x := in.(type) {
@@ -191,10 +193,10 @@ func (e *Engine) buildWrites() {
 						}
 						call := x
 						name := "decode:" + cal.String()
-						all = append(all, pending{fn: fn, in: in, addr: com.Args[m.dst], kind: "lib:" + cal.String(), val: func() *Term {
+						all = append(all, pending{fn: fn, in: in, addr: com.Args[m.dst], kind: "lib:" + cal.String(), valIn: func(c *Ctx) *Term {
 							var srcs []*Term
 							for _, a := range srcArgs {
-								srcs = append(srcs, e.Eval(a, unk))
+								srcs = append(srcs, e.Eval(a, c))
 							}
 							t := e.mk(OpCall, name, nil, srcs...)
 							t.Pos = call.Pos()
@@ -219,7 +221,9 @@ func (e *Engine) buildWrites() {
 			later = append(later, p)
 			continue
 		}
+		curValIn = p.valIn
 		add(p.fn, place, p.val, p.in, p.kind)
+		curValIn = nil
 	}
 	// phase B
 	e.phase = 2
@@ -230,7 +234,9 @@ func (e *Engine) buildWrites() {
 			continue
 		}
 		place := e.place(p.addr, e.UnknownCtx(p.fn))
+		curValIn = p.valIn
 		add(p.fn, place, p.val, p.in, p.kind)
+		curValIn = nil
 	}
 	// phase C
 	e.phase = 3
@@ -569,6 +575,24 @@ func (e *Engine) load(place *Term, ctx *Ctx, at ssa.Value) *Term {
 			return t
 		}
 	}
+	// decoders (json / asn1 / proto Unmarshal) merge into their destination:
+	// members absent from the input keep the destination's old value. Such a
+	// write overwrites only when nothing was written to the destination before.
+	merging := map[*Write]bool{}
+	for _, c := range cands {
+		if !strings.HasPrefix(c.w.Kind, "lib:") {
+			continue
+		}
+		for _, k := range cands {
+			if k.w == c.w {
+				continue
+			}
+			if k.w.Fn != c.w.Fn || before(k.w.Instr, c.w.Instr) || inCycle(c.w.Instr.Block()) {
+				merging[c.w] = true
+				break
+			}
+		}
+	}
 	// kill analysis
 	visible := []cand{}
 	must := false
@@ -578,7 +602,7 @@ func (e *Engine) load(place *Term, ctx *Ctx, at ssa.Value) *Term {
 		}
 		killed := false
 		for _, k := range cands {
-			if k.w == c.w || k.rel != 1 || !k.ex || k.w.Weak || k.w.Fn != c.w.Fn {
+			if k.w == c.w || k.rel != 1 || !k.ex || k.w.Weak || k.w.Fn != c.w.Fn || merging[k.w] {
 				continue
 			}
 			if !before(c.w.Instr, k.w.Instr) || inCycle(c.w.Instr.Block()) || inCycle(k.w.Instr.Block()) {
@@ -599,7 +623,7 @@ func (e *Engine) load(place *Term, ctx *Ctx, at ssa.Value) *Term {
 			continue
 		}
 		visible = append(visible, c)
-		if c.ex && !c.w.Weak {
+		if c.ex && !c.w.Weak && !merging[c.w] {
 			if atInstr != nil && c.w.Fn == atInstr.Parent() {
 				if before(c.w.Instr, atInstr) {
 					must = true
@@ -614,6 +638,8 @@ func (e *Engine) load(place *Term, ctx *Ctx, at ssa.Value) *Term {
 		var v *Term
 		if st, ok := c.w.Instr.(*ssa.Store); ok && c.w.Kind == "store" {
 			v = e.Eval(st.Val, e.ctxFor(c.w.Fn, ctx, allocCtx))
+		} else if c.w.ValIn != nil {
+			v = c.w.ValIn(e.ctxFor(c.w.Fn, ctx, allocCtx))
 		} else {
 			v = c.w.Val()
 		}
